@@ -2757,6 +2757,327 @@ def gen_geom():
 GENERATORS["geom"] = gen_geom
 
 
+# ---------------------------------------------------------------------------------------------
+# fan: honeycomb-kernels/src/triangulation/{mod,fan}.rs — `check_requirements`, `TriangulateError`, the two fan kernels
+# (Gen/Fan.lean, interpreted and proved equal to Model/Kernels/Fan.lean in Props/C13Gen.lean)
+# ---------------------------------------------------------------------------------------------
+FAN_RS = os.environ.get("GEN_LEAN_FAN_RS", "/repo/honeycomb-kernels/src/triangulation/fan.rs")
+FAN_MOD_RS = os.environ.get("GEN_LEAN_TRI_MOD_RS", "/repo/honeycomb-kernels/src/triangulation/mod.rs")
+FAN_OUT = os.environ.get("GEN_LEAN_FAN_OUT", os.path.join(VERIF, "lean", "Honeycomb", "Gen", "Fan.lean"))
+
+
+def fan_compact(s):
+    """all white space removed except one blank between two word characters"""
+    s = re.sub(r"(?<=\w)\s+(?=\w)", "\x00", s)
+    return re.sub(r"\s+", "", s).replace("\x00", " ")
+
+
+def fan_rx(readable, **holes):
+    """regex of a readable Rust fragment (compacted, escaped); `@NAME@` are capture groups given as keyword arguments"""
+    rx = re.escape(fan_compact(re.sub(r"@(\w+)@", r"HOLE\1HOLE", readable)))
+    for k, v in holes.items():
+        h = "HOLE" + k + "HOLE"
+        need(rx.count(h) == 1, f"fan: hole {k} not in pattern")
+        rx = rx.replace("\\ " + h, " ?" + h).replace(h + "\\ ", h + " ?").replace(h, "(" + v + ")")
+    need("HOLE" not in rx, "fan: unfilled hole in pattern " + readable)
+    return rx
+
+
+def fan_take(text, pos, rx, where):
+    m = re.compile(rx).match(text, pos)
+    need(m, f"fan: {where}: unexpected text at `{text[pos:pos + 90]}`")
+    return m, m.end()
+
+
+def fan_block_end(text, i, where):
+    """text[i] == '{' -> index just after the matching '}'"""
+    need(i < len(text) and text[i] == "{", f"fan: {where}: `{{` expected")
+    depth = 0
+    for j in range(i, len(text)):
+        if text[j] == "{":
+            depth += 1
+        elif text[j] == "}":
+            depth -= 1
+            if depth == 0:
+                return j + 1
+    raise Shape(f"fan: {where}: unbalanced braces")
+
+
+def fan_enum(src):
+    m = re.search(r"\bpub\s+enum\s+TriangulateError\s*\{", src)
+    need(m, "fan: enum TriangulateError not found")
+    end = fan_block_end(src, m.end() - 1, "TriangulateError")
+    body = re.sub(r"#\[[^\]]*\]", " ", src[m.end():end - 1])
+    names = []
+    for item in split_depth0(body, ","):
+        item = item.strip()
+        if not item:
+            continue
+        mm = re.fullmatch(r"([A-Z]\w*)\s*(\(.*\))?", item, flags=re.S)
+        need(mm, f"fan: TriangulateError: unexpected variant `{item}`")
+        names.append(mm.group(1))
+    need(len(set(names)) == len(names) and names, "fan: TriangulateError: variants")
+    return names
+
+
+def fan_err_action(text, variants, msgs, where):
+    """`` -> []; `return Err(TriangulateError::V(payload));` -> [variant, payload kind, message index]"""
+    if text == "":
+        return []
+    m = re.fullmatch(r"return Err\(TriangulateError::(\w+)(?:\((.*)\))?\);", text)
+    need(m, f"fan: {where}: unexpected arm body `{text}`")
+    need(m.group(1) in variants, f"fan: {where}: unknown variant {m.group(1)}")
+    v, pay = variants.index(m.group(1)), m.group(2)
+    if pay is None:
+        return [v, 0, 0]
+    if pay == "diff.abs()as usize":
+        return [v, 1, 0]
+    if pay == "diff as usize":
+        return [v, 2, 0]
+    mm = re.fullmatch(r'"([^"]*)",?', pay)
+    need(mm, f"fan: {where}: unexpected payload `{pay}`")
+    msgs.append(mm.group(1).replace(" ", "-"))
+    return [v, 3, len(msgs) - 1]
+
+
+def fan_arms(text, where):
+    """`PAT=>{BODY}…` -> [(PAT, BODY)]"""
+    arms, pos = [], 0
+    while pos < len(text):
+        m, pos = fan_take(text, pos, r"([^{}]+?)=>(?=\{)", where)
+        end = fan_block_end(text, pos, where)
+        arms.append((m.group(1), text[pos + 1:end - 1]))
+        pos = end
+        if pos < len(text) and text[pos] == ",":
+            pos += 1
+    return arms
+
+
+def fan_check_requirements(src, variants, msgs):
+    where = "check_requirements"
+    need(fan_compact(fn_sig(src, where)) == "(n_darts_face:usize,n_darts_allocated:usize,)->Result<(),TriangulateError>",
+         "fan: check_requirements: signature")
+    body = fan_compact(fn_body(src, where))
+    m, pos = fan_take(body, 0, fan_rx("match n_darts_face"), where)
+    end = fan_block_end(body, pos, where)
+    arms = fan_arms(body[pos + 1:end - 1], where)
+    need(len(arms) >= 1 and arms[-1] == ("_", ""), "fan: check_requirements: the first match must end with `_ => {}`")
+    face_arms = []
+    for pat, act in arms[:-1]:
+        need(re.fullmatch(r"\d+(\|\d+)*", pat), f"fan: check_requirements: pattern `{pat}`")
+        face_arms.append(([int(x) for x in pat.split("|")], fan_err_action(act, variants, msgs, where)))
+    m, pos = fan_take(body, end, fan_rx("match n_darts_allocated as isize - (n_darts_face as isize - @A@) * @B@",
+                                        A=r"\d+", B=r"\d+"), where)
+    diff_expr = [int(m.group(1)), int(m.group(2))]
+    end = fan_block_end(body, pos, where)
+    diff_arms = []
+    for pat, act in fan_arms(body[pos + 1:end - 1], where):
+        for k, rx in ((0, r"diff@\.\.(\d+)"), (3, r"diff@\.\.=(\d+)"), (1, r"(\d+)"), (2, r"diff@(\d+)\.\.")):
+            mm = re.fullmatch(rx, pat)
+            if mm:
+                diff_arms.append(([k, int(mm.group(1))], fan_err_action(act, variants, msgs, where)))
+                break
+        else:
+            raise Shape(f"fan: check_requirements: pattern `{pat}`")
+    need(body[end:] == "Ok(())", "fan: check_requirements: must end with Ok(())")
+    return face_arms, diff_expr, diff_arms
+
+
+def fan_operand(txt, names, where):
+    txt = txt[1:] if txt.startswith("*") else txt
+    need(txt in names, f"fan: {where}: unknown operand `{txt}`")
+    return names[txt]
+
+
+def fan_straight(text, params, vals, where):
+    """straight-line statements -> instructions; params: name -> operand; vals: name -> value index (extended in place)"""
+    names, ins, pos, nbound = dict(params), [], 0, 0
+    arg = r"\*?\w+"
+    while pos < len(text):
+        for kind, rx in (
+                ("beta", fan_rx("let @X@ = cmap.beta_transac::<@I@>(t, @A@)?;", X=r"\w+", I=r"\d+", A=arg)),
+                ("vid", fan_rx("let @X@ = cmap.vertex_id_transac(t, @A@)?;", X=r"\w+", A=arg)),
+                ("rdv", fan_rx("let @X@ = cmap.read_vertex(t, @A@)?.unwrap();", X=r"\w+", A=arg)),
+                ("sew", fan_rx("try_or_coerce!(cmap.sew::<@I@>(t, @A@, @B@), TriangulateError);", I=r"\d+", A=arg, B=arg)),
+                ("unsew", fan_rx("try_or_coerce!(cmap.unsew::<@I@>(t, @A@), TriangulateError);", I=r"\d+", A=arg)),
+                ("wrv", fan_rx("cmap.write_vertex(t, @A@, @V@)?;", A=arg, V=r"\w+"))):
+            m = re.compile(rx).match(text, pos)
+            if m:
+                break
+        else:
+            raise Shape(f"fan: {where}: unexpected statement at `{text[pos:pos + 90]}`")
+        pos = m.end()
+        if kind == "beta":
+            ins.append((1, [int(m.group(2)), fan_operand(m.group(3), names, where)]))
+            names[m.group(1)] = 20 + nbound
+            nbound += 1
+        elif kind == "vid":
+            ins.append((5, [fan_operand(m.group(2), names, where)]))
+            names[m.group(1)] = 20 + nbound
+            nbound += 1
+        elif kind == "rdv":
+            ins.append((62, [fan_operand(m.group(2), names, where)]))
+            need(m.group(1) not in vals and m.group(1) not in names, f"fan: {where}: value name reused")
+            vals[m.group(1)] = len(vals)
+        elif kind == "sew":
+            ins.append((50, [0, int(m.group(1)), fan_operand(m.group(2), names, where), fan_operand(m.group(3), names, where)]))
+        elif kind == "unsew":
+            ins.append((50, [1, int(m.group(1)), fan_operand(m.group(2), names, where)]))
+        else:
+            need(m.group(2) in vals, f"fan: {where}: unknown value `{m.group(2)}`")
+            ins.append((64, [fan_operand(m.group(1), names, where), vals[m.group(2)]]))
+    return ins
+
+
+def fan_tail(text, where):
+    """the common tail of both kernels: pre; `let mut d0 = sdart;` for-loop over the dart pairs; post"""
+    m = re.search(fan_rx("let mut d0 = @S@; for sl in new_darts.chunks_exact(2)", S=r"\*?\w+"), text)
+    need(m, f"fan: {where}: loop header not found")
+    vals = {}
+    pre = fan_straight(text[:m.start()], {"sdart": 0}, vals, where + " (before the loop)")
+    start = fan_operand(m.group(1), {"sdart": 0}, where)
+    end = fan_block_end(text, m.end(), where)
+    lbody = text[m.end() + 1:end - 1]
+    mm, p = fan_take(lbody, 0, fan_rx("let [d1, d2] = sl else { unreachable!() };"), where + " (loop)")
+    mn = re.search(r"d0=(\*?\w+);$", lbody)
+    need(mn, f"fan: {where}: the loop must end with `d0 = …;`")
+    names = {"d0": 0, "d1": 1, "d2": 2}
+    body = fan_straight(lbody[p:mn.start()], names, {}, where + " (loop)")
+    nxt = fan_operand(mn.group(1), names, where)
+    post = fan_straight(text[end:], {"sdart": 0, "d0": 1}, vals, where + " (after the loop)")
+    return pre, start, body, nxt, post
+
+
+FAN_POLICIES = ["Vertex", "VertexLinear", "Edge", "Face", "FaceLinear"]
+FAN_SIG = ("<T:CoordsFloat>(t:&mut Transaction,cmap:&CMap2<T>,face_id:FaceIdType,new_darts:&[DartIdType],)"
+           "->TransactionClosureResult<(),TriangulateError>")
+FAN_ORBIT = ("for d in cmap.orbit_transac(t, OrbitPolicy::@POL@, face_id as DartIdType) { darts.push(d?); }")
+FAN_CHECK = "let n = darts.len(); if let Err(e) = check_requirements(n, new_darts.len()) { abort(e)?; }"
+
+
+def fan_convex(src):
+    where = "process_convex_cell"
+    need(fan_compact(fn_sig(src, where)) == FAN_SIG, f"fan: {where}: signature")
+    body = fan_compact(fn_body(src, where))
+    m, pos = fan_take(body, 0, fan_rx("let mut darts: SmallVec<DartIdType, 16> = SmallVec::new(); " + FAN_ORBIT + FAN_CHECK +
+                                      " let sdart = face_id as DartIdType;", POL=r"\w+"), where)
+    need(m.group(1) in FAN_POLICIES, f"fan: {where}: policy {m.group(1)}")
+    need(body.endswith("Ok(())"), f"fan: {where}: must end with Ok(())")
+    return FAN_POLICIES.index(m.group(1)), fan_tail(body[pos:-len("Ok(())")], where)
+
+
+def fan_cell(src, variants, msgs):
+    where = "process_cell"
+    need(fan_compact(fn_sig(src, where)) == FAN_SIG, f"fan: {where}: signature")
+    body = fan_compact(fn_body(src, where))
+    m, pos = fan_take(body, 0, fan_rx(
+        "let mut darts: SmallVec<DartIdType, 16> = SmallVec::new(); let mut vertices: SmallVec<Vertex2<T>, 16> = SmallVec::new(); "
+        + FAN_ORBIT +
+        " for &d in &darts { let vid = cmap.vertex_id_transac(t, d)?; let v = if let Some(val) = cmap.read_vertex(t, vid)? { val } "
+        "else { abort(TriangulateError::@V@(@MSG@))? }; vertices.push(v); } " + FAN_CHECK,
+        POL=r"\w+", V=r"\w+", MSG=r'"[^"]*",?'), where)
+    need(m.group(1) in FAN_POLICIES, f"fan: {where}: policy {m.group(1)}")
+    pol = FAN_POLICIES.index(m.group(1))
+    need(m.group(2) in variants, f"fan: {where}: variant {m.group(2)}")
+    msgs.append(m.group(3).strip('",').replace(" ", "-"))
+    undef = [variants.index(m.group(2)), 3, len(msgs) - 1]
+    seg = r"i_seg|\(i_seg\+1\)%n"
+    m, pos = fan_take(body, pos, fan_rx(
+        "let star = darts.iter().zip(vertices.iter()).enumerate().find_map(|(id, (d0, v0))| { "
+        "let mut tmp = (@LO@..n).filter(|i_seg| !(*i_seg == id || (i_seg + 1) % n == id)).map(|i_seg| { "
+        "let (v1, v2) = (&vertices[@I1@], &vertices[@I2@]); Vertex2::cross_product_from_vertices(@A@, @B@, @C@) }); "
+        "let signum = tmp.next().map(T::signum).unwrap(); "
+        "for v in tmp { if v.signum() @SOP@ signum || v.abs() @EOP@ T::epsilon() { return None; } } Some(d0) });",
+        LO=r"\d+", I1=seg, I2=seg, A=r"v[012]", B=r"v[012]", C=r"v[012]", SOP=r"!=|==", EOP=r"<=|>=|<|>"), where)
+    star = [int(m.group(1)), 0 if m.group(2) == "i_seg" else 1, 0 if m.group(3) == "i_seg" else 1,
+            int(m.group(4)[1]), int(m.group(5)[1]), int(m.group(6)[1]),
+            ["!=", "=="].index(m.group(7)), ["<", "<=", ">", ">="].index(m.group(8))]
+    m, pos = fan_take(body, pos, fan_rx("if let Some(sdart) = star"), where)
+    end = fan_block_end(body, pos, where)
+    tail = fan_tail(body[pos + 1:end - 1], where)
+    m, pos = fan_take(body, end, fan_rx("else { abort(TriangulateError::@V@)?; } Ok(())", V=r"\w+") + "$", where)
+    need(m.group(1) in variants, f"fan: {where}: variant {m.group(1)}")
+    return pol, undef, star, [variants.index(m.group(1)), 0, 0], tail
+
+
+def gen_fan():
+    msrc = strip_comments(open(FAN_MOD_RS).read())
+    fsrc = strip_comments(open(FAN_RS).read())
+    variants, msgs = fan_enum(msrc), []
+    face_arms, diff_expr, diff_arms = fan_check_requirements(msrc, variants, msgs)
+    cpol, ctail = fan_convex(fsrc)
+    spol, undef, star, nonfan, stail = fan_cell(fsrc, variants, msgs)
+
+    def nl(a):
+        return "[" + ", ".join(map(str, a)) + "]"
+
+    def tab(rows):
+        return "[" + ", ".join(f"({op}, {nl(a)})" for op, a in rows) + "]"
+
+    def arms(rows):
+        return "[" + ", ".join(f"({nl(p)}, {nl(a)})" for p, a in rows) + "]"
+
+    def tail(prefix, doc, t):
+        pre, start, body, nxt, post = t
+        return [f"/-- {doc}: before the loop -/\ndef {prefix}Pre : List (Nat × List Nat) := {tab(pre)}\n",
+                f"/-- {doc}: `let mut d0 = <operand>` -/\ndef {prefix}Start : Nat := {start}\n",
+                f"/-- {doc}: the loop body -/\ndef {prefix}Body : List (Nat × List Nat) := {tab(body)}\n",
+                f"/-- {doc}: `d0 = <operand>` closing the loop body -/\ndef {prefix}Next : Nat := {nxt}\n",
+                f"/-- {doc}: after the loop -/\ndef {prefix}Post : List (Nat × List Nat) := {tab(post)}\n"]
+
+    out = ["/-\n  GENERATED by /verif/tools/gen_lean.py from\n  /repo/honeycomb-kernels/src/triangulation/mod.rs and fan.rs — DO NOT EDIT.\n"
+           "  Regenerated by tools/check.py before every build of a module that imports it.\n\n"
+           "  `errVariants`: the variants of `enum TriangulateError`, in source order.\n"
+           "  `msgs`: the `&'static str` payloads, in order of appearance (check_requirements, then process_cell), blanks replaced by `-`.\n"
+           "  error actions [v, k, j]: `TriangulateError::<variant v>` with payload k: 0 = none, 1 = `diff.abs() as usize`,\n"
+           "    2 = `diff as usize`, 3 = message j; [] = `{}` (fall through).\n"
+           "  `faceArms`: arms of `match n_darts_face` (patterns `a | b | …`, action `return Err(..)`); the closing `_ => {}` is required.\n"
+           "  `diffExpr` = [a, b]: the scrutinee `n_darts_allocated as isize - (n_darts_face as isize - a) * b` of the second match;\n"
+           "  `diffArms`: its arms ([kind, c], action): kind 0 = `diff @ ..c`, 1 = `c`, 2 = `diff @ c..`, 3 = `diff @ ..=c`; then `Ok(())`.\n"
+           "  Both kernels: `for d in cmap.orbit_transac(t, OrbitPolicy::<P>, face_id as DartIdType) { darts.push(d?); }` (`…Policy`: index in\n"
+           "    Vertex, VertexLinear, Edge, Face, FaceLinear), `let n = darts.len(); if let Err(e) = check_requirements(n, new_darts.len())\n"
+           "    { abort(e)?; }`, then (process_convex_cell: with `let sdart = face_id as DartIdType`; process_cell: inside\n"
+           "    `if let Some(sdart) = star { … } else { abort(<cellNoStar>)?; }`) the tail `…Pre; let mut d0 = …Start;\n"
+           "    for sl in new_darts.chunks_exact(2) { let [d1, d2] = sl else { unreachable!() }; …Body; d0 = …Next; } …Post; Ok(())` with\n"
+           "    (1, [i, a])        let x = cmap.beta_transac::<i>(t, a)?                 (binds the next variable of its part)\n"
+           "    (5, [a])           let x = cmap.vertex_id_transac(t, a)?                 (binds)\n"
+           "    (62, [a])          let v = cmap.read_vertex(t, a)?.unwrap()              (binds the next VALUE variable; shared by Pre and Post)\n"
+           "    (50, [0, I, a, b]) try_or_coerce!(cmap.sew::<I>(t, a, b), TriangulateError)\n"
+           "    (50, [1, I, a])    try_or_coerce!(cmap.unsew::<I>(t, a), TriangulateError)\n"
+           "    (64, [a, v])       cmap.write_vertex(t, a, <value variable v>)?\n"
+           "    operands: Pre: 0 = sdart; Body: 0 = d0, 1 = d1, 2 = d2; Post: 0 = sdart, 1 = d0; 20 + j = the j-th variable bound in the part.\n"
+           "  process_cell only: `cellUndef` = action of the `else` of `if let Some(val) = cmap.read_vertex(t, vid)?` in the vertex loop\n"
+           "    `for &d in &darts { let vid = cmap.vertex_id_transac(t, d)?; … vertices.push(v); }`;\n"
+           "  `starShape` = [lo, i1, i2, a, b, c, sop, eop]: the star search `darts.iter().zip(vertices.iter()).enumerate().find_map(|(id, (d0, v0))|`\n"
+           "    `{ let mut tmp = (lo..n).filter(|i_seg| !(*i_seg == id || (i_seg + 1) % n == id)).map(|i_seg| { let (v1, v2) =`\n"
+           "    `(&vertices[<i1>], &vertices[<i2>]); Vertex2::cross_product_from_vertices(v<a>, v<b>, v<c>) });`\n"
+           "    `let signum = tmp.next().map(T::signum).unwrap(); for v in tmp { if v.signum() <sop> signum || v.abs() <eop> T::epsilon()`\n"
+           "    `{ return None; } } Some(d0) })`; i1, i2: 0 = `i_seg`, 1 = `(i_seg + 1) % n`; sop: 0 = `!=`, 1 = `==`;\n"
+           "    eop: 0 = `<`, 1 = `<=`, 2 = `>`, 3 = `>=`.\n"
+           "  Props/C13Gen.lean interprets these tables and proves them EQUAL to Model/Kernels/Fan.lean.\n-/\n",
+           "namespace HC.Gen.Fan\n",
+           "/-- `enum TriangulateError` -/\ndef errVariants : List String := [" + ", ".join(f'"{s}"' for s in variants) + "]\n",
+           "/-- `&'static str` payloads -/\ndef msgs : List String := [" + ", ".join(f'"{s}"' for s in msgs) + "]\n",
+           "/-- `check_requirements`: `match n_darts_face` -/\ndef faceArms : List (List Nat × List Nat) := " + arms(face_arms) + "\n",
+           "/-- `check_requirements`: scrutinee of the second match -/\ndef diffExpr : List Nat := " + nl(diff_expr) + "\n",
+           "/-- `check_requirements`: arms of the second match -/\ndef diffArms : List (List Nat × List Nat) := " + arms(diff_arms) + "\n",
+           f"/-- `process_convex_cell`: orbit policy -/\ndef convexPolicy : Nat := {cpol}\n"]
+    out += tail("convex", "`process_convex_cell`", ctail)
+    out += [f"/-- `process_cell`: orbit policy -/\ndef cellPolicy : Nat := {spol}\n",
+            "/-- `process_cell`: undefined vertex -/\ndef cellUndef : List Nat := " + nl(undef) + "\n",
+            "/-- `process_cell`: the star search -/\ndef starShape : List Nat := " + nl(star) + "\n",
+            "/-- `process_cell`: no star -/\ndef cellNoStar : List Nat := " + nl(nonfan) + "\n"]
+    out += tail("cell", "`process_cell`", stail)
+    out.append("end HC.Gen.Fan\n")
+    txt = "\n".join(out)
+    if not os.path.exists(FAN_OUT) or open(FAN_OUT).read() != txt:
+        open(FAN_OUT, "w").write(txt)
+    return f"gen_lean: fan ok ({len(face_arms) + len(diff_arms)} arms, {len(ctail[2])} + {len(stail[2])} loop instructions)"
+
+
+GENERATORS["fan"] = gen_fan
+
+
 GENERATORS["dispatch3"] = gen_dispatch3
 
 
@@ -3223,6 +3544,325 @@ GENERATORS["remesh"] = gen_remesh
 
 
 # ---------------------------------------------------------------------------------------------
+# edge collapse kernel: `collapse_edge` and its helpers (honeycomb-kernels/src/remeshing/collapse.rs); the statement shapes and
+# operand conventions are those of the `remesh` generator above, extended (tuple parameters, helper calls, dart removal, …)
+# ---------------------------------------------------------------------------------------------
+
+COLLAPSE_RS = os.environ.get("GEN_LEAN_COLLAPSE_RS", "/repo/honeycomb-kernels/src/remeshing/collapse.rs")
+COLLAPSE_OUT = os.environ.get("GEN_LEAN_COLLAPSE_OUT", os.path.join(VERIF, "lean", "Honeycomb", "Gen", "Collapse.lean"))
+COLLAPSE_NULL = {"NULL_DART_ID": 10, "NULL_EDGE_ID": 11, "NULL_VERTEX_ID": 12}
+COLLAPSE_HALF = {"collapse_halfcell_to_midpoint": 0, "collapse_halfcell_to_base": 1}
+COLLAPSE_EDGE = {"collapse_edge_to_midpoint": 0, "collapse_edge_to_base": 1}
+COLLAPSE_CHOICE = ["Average", "Left", "Right"]
+
+
+def collapse_slug(s):
+    return "-".join(s.split())
+
+
+def collapse_fn(src, fname, ntuples, ret, errty):
+    """instructions of one helper whose dart parameters are `ntuples` triples; returns (instructions, result operand or None)"""
+    where = f"remeshing/collapse.rs {fname}"
+    sig = remesh_norm(fn_sig(src, fname))
+    tp = r"\((\w+),(\w+),(\w+)\):\(DartIdType,DartIdType,DartIdType\),"
+    m = re.fullmatch(r"<T:CoordsFloat>\(t:&mut Transaction,map:&CMap2<T>," + tp * ntuples + r"\)->TransactionClosureResult<" +
+                     re.escape(ret) + "," + errty + ">", sig)
+    need(m, f"{where}: signature {sig!r}")
+    base = {}
+    for j, p in enumerate(m.groups()):
+        need(p not in base, f"{where}: parameter {p} twice")
+        base[p] = (j, "n")
+    for c, v in COLLAPSE_NULL.items():
+        base[c] = (v, "n")
+    nvars = [0]
+    A = r"(\w+)" + REMESH_CAST
+    ERR = r"(?:SewError|EdgeCollapseError)"
+
+    def block(body, names):
+        out, pos = [], 0
+
+        def val(tok, ty="n"):
+            need(tok in names, f"{where}: unknown name {tok!r}")
+            need(names[tok][1] == ty, f"{where}: {tok} has type {names[tok][1]}, expected {ty}")
+            return names[tok][0]
+
+        def bind(name, ty):
+            need(name not in names, f"{where}: {name} bound twice")
+            names[name] = (20 + nvars[0], ty)
+            nvars[0] += 1
+
+        def vidsel(e):
+            """`if a != NULL_DART_ID { vid(b) } else if c != NULL_DART_ID { vid(d) } else { NULL_VERTEX_ID }`"""
+            v = r"\{map\.vertex_id_transac\(t," + A + r"\)\?\}"
+            mm = re.fullmatch("if " + A + "!=" + A + v + "else if " + A + "!=" + A + v + r"else\{(\w+)\}", e)
+            need(mm, f"{where}: expression not recognised: {e[:90]!r}")
+            g = mm.groups()
+            need(g[1] == "NULL_DART_ID" and g[4] == "NULL_DART_ID" and g[6] == "NULL_VERTEX_ID", f"{where}: constants of the identifier selection: {g}")
+            return (23, [val(g[0]), val(g[1]), val(g[2]), val(g[3]), val(g[4]), val(g[5]), val(g[6])])
+
+        def let(name, e):
+            mm = re.fullmatch(A, e)
+            if mm:
+                need(name not in names, f"{where}: {name} bound twice")
+                names[name] = (val(mm.group(1)), "n")
+                return
+            mm = re.fullmatch(r"map\.beta_transac::<(\d)>\(t," + A + r"\)\?", e)
+            if mm:
+                out.append((1, [int(mm.group(1)), val(mm.group(2))]))
+                return bind(name, "n")
+            mm = re.fullmatch(r"map\.vertex_id_transac\(t," + A + r"\)\?", e)
+            if mm:
+                out.append((7, [val(mm.group(1))]))
+                return bind(name, "n")
+            mm = re.fullmatch(r"map\.read_vertex\(t," + A + r"\)\?", e)
+            if mm:
+                out.append((21, [val(mm.group(1))]))
+                return bind(name, ("opt", "vtx"))
+            mm = re.fullmatch(r"map\.read_attribute::<(\w+)>\(t," + A + r"\)\?", e)
+            if mm:
+                need(mm.group(1) in REMESH_KIND, f"{where}: unknown attribute {mm.group(1)}")
+                out.append((22, [REMESH_KIND[mm.group(1)], val(mm.group(2))]))
+                return bind(name, ("opt", REMESH_KIND[mm.group(1)]))
+            out.append(vidsel(e))
+            bind(name, "n")
+
+        while pos < len(body):
+            rest = body[pos:]
+            call = r"map\.(sew|unsew)::<(\d)>\(t," + A + r"(?:," + A + r")?\)"
+            m = re.match(r"try_or_coerce!\(" + call + "," + ERR + r"\);", rest) or re.match(call + r"\?;", rest)
+            if m:
+                k = 0 if m.group(1) == "sew" else 1
+                need((m.group(4) is not None) == (k == 0), f"{where}: arity of {m.group(1)}")
+                out.append((3, [k, int(m.group(2)), val(m.group(3))] + ([val(m.group(4))] if k == 0 else [])))
+                pos += m.end()
+                continue
+            m = re.match(r"try_or_coerce!\(map\.unlink::<(\d)>\(t," + A + r"\),SewError\);", rest)
+            if m:
+                out.append((16, [int(m.group(1)), val(m.group(2))]))
+                pos += m.end()
+                continue
+            m = re.match(r"map\.remove_free_dart_transac\(t," + A + r"\)\?;", rest)
+            if m:
+                out.append((15, [val(m.group(1))]))
+                pos += m.end()
+                continue
+            call = r"(\w+)\(t,map,\(" + A + "," + A + "," + A + r"\)\)"
+            m = re.match(r"try_or_coerce!\(" + call + r",?," + ERR + r",?\);", rest) or re.match(call + r"\?;", rest)
+            if m:
+                need(m.group(1) in COLLAPSE_HALF, f"{where}: unknown callee {m.group(1)!r}")
+                out.append((20, [COLLAPSE_HALF[m.group(1)], val(m.group(2)), val(m.group(3)), val(m.group(4))]))
+                pos += m.end()
+                continue
+            m = re.match(r"let (\w+)=(if [^;]+);", rest) or re.match(r"let (\w+)=([^;{}]+);", rest)
+            if m:
+                let(m.group(1), m.group(2))
+                pos += m.end()
+                continue
+            m = re.match(r"let\((\w+),(\w+)\)=\(([^;{}]+)\);", rest)
+            if m:
+                parts = [p for p in split_top(m.group(3)) if p]
+                need(len(parts) == 2, f"{where}: tuple `let` with {len(parts)} components")
+                let(m.group(1), parts[0])         # evaluated left to right
+                let(m.group(2), parts[1])
+                pos += m.end()
+                continue
+            m = re.match(r"if " + A + "!=" + A + r"\{", rest)
+            if m:
+                need(m.group(2) in COLLAPSE_NULL, f"{where}: comparison with {m.group(2)!r}")
+                blk, end = block_after(rest, m.end() - 1, where)
+                need(not rest.startswith("else", end), f"{where}: unexpected `else`")
+                saved = nvars[0]
+                ins = block(blk, dict(names))
+                nvars[0] = saved
+                out.append((17, [val(m.group(1)), val(m.group(2)), len(ins)]))
+                out.extend(ins)
+                pos += end
+                continue
+            m = re.match(r"if let Some\((\w+)\)=(\w+)\{", rest)
+            if m:
+                o = m.group(2)
+                need(o in names and isinstance(names[o][1], tuple) and names[o][1][0] == "opt", f"{where}: `if let Some` on {o!r}")
+                blk, end = block_after(rest, m.end() - 1, where)
+                need(not rest.startswith("else", end), f"{where}: unexpected `else`")
+                need(m.group(1) not in names, f"{where}: {m.group(1)} bound twice")
+                kind = names[o][1][1]
+                x = 20 + nvars[0]
+                if kind == "vtx":
+                    mm = re.fullmatch(r"map\.write_vertex\(t," + A + r",(\w+)\)\?;", blk)
+                    need(mm and mm.group(2) == m.group(1), f"{where}: block of `if let Some({m.group(1)})`: {blk[:80]!r}")
+                    ins = [(11, [val(mm.group(1)), x])]
+                else:
+                    mm = re.fullmatch(r"map\.write_attribute\(t," + A + r",(\w+)\)\?;", blk)
+                    need(mm and mm.group(2) == m.group(1), f"{where}: block of `if let Some({m.group(1)})`: {blk[:80]!r}")
+                    ins = [(13, [kind, val(mm.group(1)), x, kind])]      # the attribute written is the one the TYPE of the value selects
+                out.append((12, [names[o][0], len(ins)]))
+                out.extend(ins)
+                pos += end
+                continue
+            raise Shape(f"{where}: statement not recognised at {rest[:90]!r}")
+        return out
+
+    body = remesh_norm(fn_body(src, fname))
+    names = dict(base)
+    if ret == "()":
+        m = re.fullmatch(r"(.*;|.*\})(?:TransactionClosureResult::)?Ok\(\(\)\)", body)
+        need(m, f"{where}: does not end with Ok(())")
+        return block(m.group(1), names), None
+    m = re.fullmatch(r"(.*;|.*\})Ok\((.*)\)", body)
+    need(m, f"{where}: does not end with Ok(…)")
+    ins = block(m.group(1), names)
+    tail = m.group(2)
+    if re.fullmatch(r"\w+", tail):
+        need(tail in names and names[tail][1] == "n", f"{where}: result {tail!r}")
+        return ins, names[tail][0]
+    # the final expression is the identifier selection
+    sub = block("let __result=" + tail + ";", names)
+    return ins + sub, names["__result"][0]
+
+
+def collapse_guard(src):
+    """`is_collapsible`, a rigid shape; every name and literal that appears is recorded"""
+    where = "remeshing/collapse.rs is_collapsible"
+    sig = remesh_norm(fn_sig(src, "is_collapsible"))
+    need(sig == "<T:CoordsFloat>(t:&mut Transaction,map:&CMap2<T>,e:EdgeIdType,)->TransactionClosureResult<Collapsible,EdgeCollapseError>",
+         f"{where}: signature {sig!r}")
+    body = remesh_norm(fn_body(src, "is_collapsible"))
+    A = r"(\w+)" + REMESH_CAST
+    rd = r"map\.read_attribute::<(\w+)>\(t," + A + r"\)\?,"
+    pat = (r"if!map\.contains_attribute::<(?P<k0>\w+)>\(\)\{return Ok\(Collapsible::(?P<early>\w+)\);\}"
+           r"(?P<pre>(?:let[^;{}]+;)*)"
+           r"let\((?P<n1>\w+),(?P<n2>\w+),(?P<n3>\w+)\)=if let\(Some\((?P<s1>\w+)\),Some\((?P<s2>\w+)\),Some\((?P<s3>\w+)\)\)=\(" +
+           r"map\.read_attribute::<(?P<k1>\w+)>\(t,(?P<i1>\w+)" + REMESH_CAST + r"\)\?," +
+           r"map\.read_attribute::<(?P<k2>\w+)>\(t,(?P<i2>\w+)" + REMESH_CAST + r"\)\?," +
+           r"map\.read_attribute::<(?P<k3>\w+)>\(t,(?P<i3>\w+)" + REMESH_CAST + r"\)\?,?\)"
+           r"\{\((?P<t1>\w+),(?P<t2>\w+),(?P<t3>\w+)\)\}else\{retry\(\)\?\};"
+           r"match AttributeUpdate::merge\((?P<m1>\w+),(?P<m2>\w+)\)\{Ok\((?P<val>\w+)\)=>\{"
+           r"if (?P<d1>\w+)\.anchor_dim\(\)==(?P<d2>\w+)\.anchor_dim\(\)\|\|(?P<d3>\w+)\.anchor_dim\(\)==(?P<d4>\w+)\.anchor_dim\(\)\{"
+           r"match\((?P<q1>\w+)==(?P<q2>\w+),(?P<q3>\w+)==(?P<q4>\w+)\)\{(?P<arms>[^{}]*)\}\}"
+           r"else\{abort\(EdgeCollapseError::NonCollapsibleEdge\(\"(?P<msg1>[^\"]*)\",?\)\)\}\}"
+           r"Err\(AttributeError::FailedMerge\(_,_\)\)=>abort\(EdgeCollapseError::NonCollapsibleEdge\(\"(?P<msg2>[^\"]*)\",?\)\),"
+           r"Err\(AttributeError::FailedSplit\(_,_\)\|AttributeError::InsufficientData\(_,_\)\)=>\{unreachable!\(\);\},?\}")
+    m = re.fullmatch(pat, body)
+    need(m, f"{where}: body not of the expected shape: {body[:120]!r}")
+    g = m.groupdict()
+    need(g["k0"] in REMESH_KIND and g["early"] in COLLAPSE_CHOICE, f"{where}: early return {g['k0']} / {g['early']}")
+    # the reads before the anchors: the statement shapes of the helpers, on the single parameter `e`
+    names = {"e": (0, "n")}
+    pre = []
+    nv = 0
+    def let(name, e):
+        nonlocal nv
+        need(name not in names, f"{where}: {name} bound twice")
+        mm = re.fullmatch(A, e)
+        if mm:
+            need(mm.group(1) in names, f"{where}: unknown name {mm.group(1)!r}")
+            names[name] = names[mm.group(1)]
+            return
+        mm = re.fullmatch(r"map\.(beta_transac::<(\d)>|vertex_id_transac)\(t," + A + r"\)\?", e)
+        need(mm, f"{where}: expression not recognised: {e!r}")
+        need(mm.group(3) in names, f"{where}: unknown name {mm.group(3)!r}")
+        a = names[mm.group(3)][0]
+        pre.append((1, [int(mm.group(2)), a]) if mm.group(2) is not None else (7, [a]))
+        names[name] = (20 + nv, "n")
+        nv += 1
+    for st in [s for s in g["pre"].split(";") if s]:
+        mm = re.fullmatch(r"let\((\w+),(\w+)\)=\((.*)\)", st)
+        if mm:
+            parts = [p for p in split_top(mm.group(3)) if p]
+            need(len(parts) == 2, f"{where}: tuple `let` with {len(parts)} components")
+            let(mm.group(1), parts[0])
+            let(mm.group(2), parts[1])
+            continue
+        mm = re.fullmatch(r"let (\w+)=(.*)", st)
+        need(mm, f"{where}: statement not recognised: {st!r}")
+        let(mm.group(1), mm.group(2))
+    reads = []
+    for j in "123":
+        need(g["k" + j] in REMESH_KIND and g["i" + j] in names, f"{where}: anchor read {j}: {g['k' + j]} of {g['i' + j]}")
+        reads.append((REMESH_KIND[g["k" + j]], names[g["i" + j]][0]))
+    need(len({g["s1"], g["s2"], g["s3"]}) == 3 and len({g["n1"], g["n2"], g["n3"]}) == 3, f"{where}: pattern names")
+    anch = {}
+    for j, t in enumerate([g["t1"], g["t2"], g["t3"]]):        # n_j is bound to the value read by read number perm[j]
+        need(t in (g["s1"], g["s2"], g["s3"]), f"{where}: tuple component {t!r}")
+        anch[g["n" + str(j + 1)]] = [g["s1"], g["s2"], g["s3"]].index(t)
+    def an(x):
+        need(x in anch, f"{where}: {x!r} is not one of the three anchors")
+        return anch[x]
+    merge = [an(g["m1"]), an(g["m2"])]
+    dims = [[an(g["d1"]), an(g["d2"])], [an(g["d3"]), an(g["d4"])]]
+    need(g["q1"] == g["val"] and g["q3"] == g["val"] and g["val"] not in anch, f"{where}: comparisons of the merged value")
+    eqs = [an(g["q2"]), an(g["q4"])]
+    table = []
+    for arm in [a for a in split_top(g["arms"]) if a]:
+        mm = re.fullmatch(r"\((true|false),(true|false)\)=>(?:Ok\(Collapsible::(\w+)\)|(unreachable!\(\)))", arm)
+        need(mm, f"{where}: arm not recognised: {arm!r}")
+        need(mm.group(4) is not None or mm.group(3) in COLLAPSE_CHOICE, f"{where}: unknown choice {mm.group(3)!r}")
+        table.append((mm.group(1), mm.group(2), 9 if mm.group(4) is not None else COLLAPSE_CHOICE.index(mm.group(3))))
+    need(sorted((a, b) for a, b, _ in table) == sorted((a, b) for a in ("false", "true") for b in ("false", "true")), f"{where}: arms {table}")
+    return dict(kind=REMESH_KIND[g["k0"]], early=COLLAPSE_CHOICE.index(g["early"]), pre=pre, reads=reads, merge=merge, dims=dims, eqs=eqs,
+                table=table, msgs=[collapse_slug(g["msg1"]), collapse_slug(g["msg2"])])
+
+
+def gen_collapse():
+    src = strip_comments(open(COLLAPSE_RS).read())
+    errs = remesh_enum(src, "EdgeCollapseError")
+    m = re.search(r"\benum Collapsible\b", src)
+    need(m, "enum Collapsible not found")
+    cb, _ = block_after(src, m.end(), "enum Collapsible")
+    need([v for v in "".join(cb.split()).split(",") if v] == COLLAPSE_CHOICE, f"enum Collapsible: {cb!r}")
+    fns = [("collapse_halfcell_to_midpoint", collapse_fn(src, "collapse_halfcell_to_midpoint", 1, "()", "SewError")),
+           ("collapse_halfcell_to_base", collapse_fn(src, "collapse_halfcell_to_base", 1, "()", "SewError")),
+           ("collapse_edge_to_midpoint", collapse_fn(src, "collapse_edge_to_midpoint", 2, "VertexIdType", "SewError")),
+           ("collapse_edge_to_base", collapse_fn(src, "collapse_edge_to_base", 2, "VertexIdType", "EdgeCollapseError"))]
+    gd = collapse_guard(src)
+    lst = lambda ins: "[" + ", ".join(f"({op}, [{', '.join(map(str, a))}])" for op, a in ins) + "]"
+    out = ["/-\n  GENERATED by /verif/tools/gen_lean.py from /repo/honeycomb-kernels/src/remeshing/collapse.rs — DO NOT EDIT.\n"
+           "  Regenerated by tools/check.py before every build of a module that imports it.\n\n"
+           "  `collapseErrors`: the variants of `EdgeCollapseError` in declaration order; `collapsible`: those of `Collapsible`.\n"
+           "  The helpers as (opcode, operands), opcodes 1, 3, 7, 11, 12, 13 as in Gen/Remesh.lean, and\n"
+           "    (15, [a])               map.remove_free_dart_transac(t, a)?\n"
+           "    (16, [I, a])            try_or_coerce!(map.unlink::<I>(t, a), SewError)\n"
+           "    (17, [a, c, n])         if a != c { the next n instructions }           (c one of the NULL constants)\n"
+           "    (20, [h, a, b, c])      collapse_halfcell_to_midpoint (h = 0) / collapse_halfcell_to_base (h = 1) (t, map, (a, b, c)), error propagated\n"
+           "    (21, [a])               let x = map.read_vertex(t, a)?                  (binds an Option<vertex>)\n"
+           "    (22, [K, a])            let x = map.read_attribute::<K>(t, a)?          (binds an Option<K>)\n"
+           "    (23, [a, c, b, a', c', b', z])  let x = if a != c { map.vertex_id_transac(t, b)? } else if a' != c' { map.vertex_id_transac(t, b')? } else { z }\n"
+           "  operands: 0, 1, 2 (3, 4, 5) = the components of the first (second) tuple parameter, 10 = NULL_DART_ID, 11 = NULL_EDGE_ID,\n"
+           "  12 = NULL_VERTEX_ID, 20 + j = the j-th variable bound on the path taken.  `…Result`: the operand returned in `Ok(…)`.\n"
+           "  `is_collapsible` (rigid shape): `guardKind` / `guardEarly`: `if !map.contains_attribute::<K>() { return Ok(Collapsible::<early>) }`;\n"
+           "  `guardPre`: the reads before the anchors (operand 0 = e); `guardReads`: the three `read_attribute::<K>(t, id)` as (K, id), all\n"
+           "  three evaluated, `retry()` unless all are `Some`; the anchors are numbered 0, 1, 2 in the order read; `guardMerge`: the arguments of\n"
+           "  `AttributeUpdate::merge`; `guardDims`: `x.anchor_dim() == y.anchor_dim() || x'.anchor_dim() == y'.anchor_dim()`;\n"
+           "  `guardEqs`: `(val == x, val == y)`; `guardTable`: the arms (9 = `unreachable!()`); `guardMsgs`: the message of the `else`\n"
+           "  branch and of the `FailedMerge` arm (blanks replaced by `-`).\n"
+           "  Props/C15GenB.lean interprets all this and proves it EQUAL to the definitions of Model/Kernels/Collapse.lean.\n-/\n",
+           "namespace HC.Gen.Collapse\n"]
+    out.append("/-- `enum EdgeCollapseError` -/\ndef collapseErrors : List String := [" + ", ".join(f'"{v}"' for v in errs) + "]\n")
+    out.append("/-- `enum Collapsible` -/\ndef collapsible : List String := [" + ", ".join(f'"{v}"' for v in COLLAPSE_CHOICE) + "]\n")
+    for f, (ins, res) in fns:
+        camel = re.sub(r"_(\w)", lambda mm: mm.group(1).upper(), f)
+        out.append(f"/-- `{f}` -/\ndef {camel} : List (Nat × List Nat) := {lst(ins)}\n")
+        if res is not None:
+            out.append(f"def {camel}Result : Nat := {res}\n")
+    out.append(f"/-- `is_collapsible` -/\ndef guardKind : Nat := {gd['kind']}\ndef guardEarly : Nat := {gd['early']}\n"
+               f"def guardPre : List (Nat × List Nat) := {lst(gd['pre'])}\n"
+               "def guardReads : List (Nat × Nat) := [" + ", ".join(f"({k}, {a})" for k, a in gd["reads"]) + "]\n"
+               f"def guardMerge : Nat × Nat := ({gd['merge'][0]}, {gd['merge'][1]})\n"
+               "def guardDims : List (Nat × Nat) := [" + ", ".join(f"({a}, {b})" for a, b in gd["dims"]) + "]\n"
+               f"def guardEqs : Nat × Nat := ({gd['eqs'][0]}, {gd['eqs'][1]})\n"
+               "def guardTable : List (Bool × Bool × Nat) := [" + ", ".join(f"({a}, {b}, {c})" for a, b, c in gd["table"]) + "]\n"
+               f"def guardMsgs : String × String := (\"{gd['msgs'][0]}\", \"{gd['msgs'][1]}\")\n")
+    out.append("end HC.Gen.Collapse\n")
+    txt = "\n".join(out)
+    if not os.path.exists(COLLAPSE_OUT) or open(COLLAPSE_OUT).read() != txt:
+        open(COLLAPSE_OUT, "w").write(txt)
+    return f"gen_lean: collapse ok ({sum(len(i) for _, (i, _) in fns)} instructions)"
+
+
+GENERATORS["collapse"] = gen_collapse
+
+
+# ---------------------------------------------------------------------------------------------
 # single-vertex insertion kernel: `is_free_transac` and `insert_vertex_on_edge` of honeycomb-kernels/src/cell_insertion/vertices.rs,
 # with the dispatch of the public `CMap2::link::<I>` / `unlink::<I>` (dim2/links/mod.rs) and the bodies of the internal
 # `one_link` / `one_unlink` (dim2/links/one.rs), `two_link` / `two_unlink` (dim2/links/two.rs) it calls
@@ -3537,6 +4177,332 @@ def gen_vins():
 
 
 GENERATORS["vins"] = gen_vins
+
+
+# ---------------------------------------------------------------------------------------------
+# multi-vertex insertion kernel: `insert_vertices_on_edge` of honeycomb-kernels/src/cell_insertion/vertices.rs (validation prefix, reads,
+# editing part; the three `for` loops as separate BODY lists).  Tied in Props/C14GenN.lean.
+# ---------------------------------------------------------------------------------------------
+
+VINSN_OUT = os.environ.get("GEN_LEAN_VINSN_OUT", os.path.join(VERIF, "lean", "Honeycomb", "Gen", "VertexInsertionN.lean"))
+
+
+def vinsn_instrs(src):
+    """returns (main instruction list, {loop name: body list}, messages)"""
+    where = "cell_insertion/vertices.rs insert_vertices_on_edge"
+    fname = "insert_vertices_on_edge"
+    sig = "".join(fn_sig(src, fname).split())
+    need(re.fullmatch(r"<T:CoordsFloat>\(cmap:&CMap2<T>,trans:&mutTransaction,edge_id:EdgeIdType,new_darts:&\[DartIdType\],"
+                      r"midpoint_vertices:&\[T\],?\)->TransactionClosureResult<\(\),VertexInsertionError>", sig), f"{where}: signature {sig!r}")
+    raw = fn_body(src, fname)
+    msgs = []
+
+    def lit(m):
+        s = m.group(1)
+        need(re.fullmatch(r"[A-Za-z0-9 ]+", s), f"{where}: message {s!r} has characters the slug does not cover")
+        msgs.append(s.replace(" ", "-"))
+        return f'"#{len(msgs) - 1}"'
+
+    body = "".join(re.sub(r'"([^"\\\n]*)"', lit, raw).split())
+    need('"' not in re.sub(r'"#\d+"', "", body), f"{where}: string literal not understood")
+
+    OPD = r"([\w.*]+)"
+    VE = r"VertexInsertionError::"
+    ABORT_MSG = r"\{abort\(" + VE + r"InvalidDarts\(\"#(\d+)\",?\)\)\?;\}"
+    ANYNULL = r"(\w+)\.iter\(\)\.any\(\|(\w+)\|\*(\w+)==NULL_DART_ID\)"
+    VID = r"cmap\.vertex_id_transac\(trans," + OPD + r"\)\?"
+    RDV = r"cmap\.read_vertex\(trans," + OPD + r"\)\?"
+    LINK = r"try_or_coerce!\(cmap\.(link|unlink)::<(\d)>\(trans,([\w.,*]+?),?\),VertexInsertionError,?\);"
+    loops = {}
+
+    def err0(k):
+        need(k in ("VertexBound", "UndefinedEdge"), f"{where}: {k} is not a payload-free VertexInsertionError")
+        return VINS_ERRS[k]
+
+    def mult(tok):
+        """`n_t` / `2*n_t` / `n_t*2` -> the factor"""
+        if tok == "n_t":
+            return 1
+        m = re.fullmatch(r"(\d+)\*n_t", tok) or re.fullmatch(r"n_t\*(\d+)", tok)
+        need(m, f"{where}: amount expression {tok!r}")
+        return int(m.group(1))
+
+    def link_instr(m, arg):
+        args = m.group(3).split(",")
+        need(len(args) == (2 if m.group(1) == "link" else 1), f"{where}: arity of {m.group(1)}")
+        return (46, [0 if m.group(1) == "link" else 1, int(m.group(2)), arg(args[0]), arg(args[1]) if len(args) == 2 else 3])
+
+    def loop_body(text, names, vals, geo, tvar, has_prev, label):
+        """body of a `for`: link calls on prev_d / the loop variables, `prev_d = x;`, `let x = vertex_id_transac(..)`, `write_vertex(x, r + seg * t)`"""
+        names = dict(names)
+        nv = 0
+
+        def arg(tok):
+            need(tok in names, f"{where}: {label}: unknown name {tok!r}")
+            return names[tok]
+
+        out, pos = [], 0
+        while pos < len(text):
+            m = re.compile(LINK).match(text, pos)
+            if m:
+                out.append(link_instr(m, arg))
+                pos = m.end()
+                continue
+            m = re.compile(r"prev_d=" + OPD + ";").match(text, pos)
+            if m:
+                need(has_prev, f"{where}: {label}: assignment to prev_d, which is not a `let mut` in scope")
+                out.append((48, [arg(m.group(1))]))
+                pos = m.end()
+                continue
+            m = re.compile(r"let(\w+)=" + VID + ";").match(text, pos)
+            if m:
+                need(m.group(1) not in names and m.group(1) not in vals and m.group(1) not in geo, f"{where}: {label}: {m.group(1)} shadows")
+                out.append((5, [arg(m.group(2))]))
+                names[m.group(1)] = 20 + nv
+                nv += 1
+                pos = m.end()
+                continue
+            m = re.compile(r"cmap\.write_vertex\(trans," + OPD + r",(\w+)\+(\w+)\*(\w+),?\)\?;").match(text, pos)
+            if m:
+                need(tvar is not None and m.group(4) == tvar, f"{where}: {label}: the factor {m.group(4)} is not the loop's position variable")
+                need(m.group(2) in vals, f"{where}: {label}: {m.group(2)} is not a vertex value")
+                need(m.group(3) in geo, f"{where}: {label}: {m.group(3)} is not a difference of two vertex values")
+                out.append((49, [arg(m.group(1)), vals[m.group(2)]] + list(geo[m.group(3)])))
+                pos = m.end()
+                continue
+            raise Shape(f"{where}: {label}: statement not recognised at {text[pos:pos + 100]!r}")
+        need(out, f"{where}: {label}: empty loop body")
+        need(label not in loops, f"{where}: loop {label} twice")
+        loops[label] = out
+
+    def parse(body, st, top):
+        names, vals, geo, lists = st["names"], st["vals"], st["geo"], st["lists"]
+
+        def arg(tok):
+            need(tok in names, f"{where}: unknown name {tok!r}")
+            return names[tok]
+
+        def lst(tok):
+            need(tok in lists, f"{where}: {tok!r} is not a dart slice")
+            return lists[tok]
+
+        def fresh(name):
+            need(name not in vals and name not in geo and name not in lists and name not in ("edge_id", "NULL_DART_ID", "new_darts", "midpoint_vertices",
+                 "n_t", "n_d", "prev_d"), f"{where}: {name} cannot be rebound")
+
+        def bind(name):
+            fresh(name)
+            names[name] = 20 + st["nvars"]
+            st["nvars"] += 1
+
+        def loop_names(pats):
+            """pattern `&x` -> uses `x`; pattern `x` (a reference) -> uses `*x`"""
+            d = {k: v for k, v in names.items()}
+            for p, code in pats:
+                nm = p.lstrip("&")
+                need(re.fullmatch(r"\w+", nm) and nm not in names and nm not in vals and nm not in geo and nm not in lists, f"{where}: loop variable {p!r}")
+                d[nm if p.startswith("&") else "*" + nm] = code
+            return d
+
+        out, pos, ended = [], 0, False
+        while pos < len(body):
+            need(not ended, f"{where}: statements after the end of the block: {body[pos:pos + 80]!r}")
+            m = re.compile(r"letn_t=midpoint_vertices\.len\(\);letn_d=new_darts\.len\(\);ifn_d!=([\w*]+)\{abort\(" + VE + r"WrongAmountDarts\(([\w*]+),n_d\)\)\?;\}").match(body, pos)
+            if m:
+                need(top and not out, f"{where}: the amount check is not the first statement")
+                out.append((60, [mult(m.group(1)), mult(m.group(2))]))
+                pos = m.end()
+                continue
+            m = re.compile(r"for(\w+)innew_darts\{if!is_free_transac\(cmap,trans,\*(\w+)\)\?" + ABORT_MSG + r"\}").match(body, pos)
+            if m:
+                need(m.group(1) == m.group(2), f"{where}: the freeness loop tests {m.group(2)}, iterates {m.group(1)}")
+                out.append((61, [int(m.group(3))]))
+                pos = m.end()
+                continue
+            m = re.compile(r"let(\w+)=&new_darts\[(\.\.n_t|n_t\.\.)\];").match(body, pos)
+            if m:
+                fresh(m.group(1))
+                need(m.group(1) not in names, f"{where}: {m.group(1)} bound twice")
+                lists[m.group(1)] = len(lists)
+                out.append((62, [0 if m.group(2) == "..n_t" else 1]))
+                pos = m.end()
+                continue
+            m = re.compile(r"let(\w+)=(\w+)asDartIdType;").match(body, pos)
+            if m:
+                need(m.group(2) == "edge_id" and m.group(1) not in names, f"{where}: cast of {m.group(2)}")
+                fresh(m.group(1))
+                names[m.group(1)] = 0
+                pos = m.end()
+                continue
+            m = re.compile(r"let(\w+)=cmap\.beta_transac::<(\d)>\(trans," + OPD + r"\)\?;").match(body, pos)
+            if m:
+                out.append((1, [int(m.group(2)), arg(m.group(3))]))
+                bind(m.group(1))
+                pos = m.end()
+                continue
+            m = re.compile("if" + ANYNULL + ABORT_MSG).match(body, pos)
+            if m:
+                need(m.group(2) == m.group(3), f"{where}: closure tests {m.group(3)}, binds {m.group(2)}")
+                out.append((63, [lst(m.group(1)), int(m.group(4))]))
+                pos = m.end()
+                continue
+            m = re.compile(r"if(\w+)!=NULL_DART_ID&&" + ANYNULL + ABORT_MSG).match(body, pos)
+            if m:
+                need(m.group(3) == m.group(4), f"{where}: closure tests {m.group(4)}, binds {m.group(3)}")
+                out.append((64, [arg(m.group(1)), lst(m.group(2)), int(m.group(5))]))
+                pos = m.end()
+                continue
+            m = re.compile(r"ifmidpoint_vertices\.iter\(\)\.any\(\|t\|\(\*t>=T::one\(\)\)\|\(\*t<=T::zero\(\)\)\)\{abort\(" + VE + r"(\w+)\)\?;\}").match(body, pos)
+            if m:
+                out.append((65, [err0(m.group(1))]))
+                pos = m.end()
+                continue
+            m = re.compile(r"let\((\w+),(\w+)\)=\(" + VID + r",cmap\.vertex_id_transac\(trans,if(\w+)!=NULL_DART_ID\{(\w+)\}elseif(\w+)!=NULL_DART_ID\{(\w+)\}"
+                           r"else\{abort\(" + VE + r"(\w+)\)\?\},?\)\?,?\);").match(body, pos)
+            if m:
+                need(m.group(1) != m.group(2), f"{where}: tuple let binds {m.group(1)} twice")
+                need(m.group(4) == m.group(5) and m.group(6) == m.group(7), f"{where}: the second end point: tested / returned darts differ")
+                out += [(5, [arg(m.group(3))]), (66, [arg(m.group(4)), arg(m.group(6)), err0(m.group(8))])]
+                bind(m.group(1))
+                tgt = 20 + st["nvars"]
+                st["nvars"] += 1
+                out.append((5, [tgt]))
+                bind(m.group(2))
+                pos = m.end()
+                continue
+            m = re.compile(r"let\(Some\((\w+)\),Some\((\w+)\)\)=\(" + RDV + "," + RDV + r",?\)else\{abort\(" + VE + r"(\w+)\)\?;?\};").match(body, pos)
+            if m:
+                out.append((44, [arg(m.group(3)), arg(m.group(4)), err0(m.group(5))]))
+                for nm in (m.group(1), m.group(2)):
+                    need(nm not in vals and nm not in names and nm not in geo and nm not in lists, f"{where}: {nm} bound twice")
+                    vals[nm] = len(vals)
+                pos = m.end()
+                continue
+            m = re.compile(r"let(\w+)=(\w+)-(\w+);").match(body, pos)
+            if m:
+                need(m.group(1) not in names and m.group(1) not in vals and m.group(1) not in geo and m.group(1) not in lists, f"{where}: {m.group(1)} bound twice")
+                need(m.group(2) in vals and m.group(3) in vals, f"{where}: {m.group(2)} - {m.group(3)}: not vertex values")
+                geo[m.group(1)] = (vals[m.group(2)], vals[m.group(3)])
+                pos = m.end()
+                continue
+            m = re.compile(LINK).match(body, pos)
+            if m:
+                out.append(link_instr(m, arg))
+                pos = m.end()
+                continue
+            m = re.compile(r"letmutprev_d=(\w+);").match(body, pos)
+            if m:
+                out.append((50, [arg(m.group(1))]))
+                names["prev_d"] = 1
+                pos = m.end()
+                continue
+            m = re.compile(r"for&(\w+)in(\w+)\{").match(body, pos)
+            if m:
+                inner, end = block_after(body, m.end() - 1, where)
+                need("prev_d" in names, f"{where}: first-side loop without `let mut prev_d`")
+                loop_body(inner, loop_names([("&" + m.group(1), 2)]), vals, geo, None, True, "chainFirst")
+                out.append((51, [lst(m.group(2))]))
+                pos = end
+                continue
+            m = re.compile(r"for\((&?\w+),(&?\w+)\)in(\w+)\.iter\(\)\.rev\(\)\.zip\((\w+)\.iter\(\)\)\{").match(body, pos)
+            if m:
+                inner, end = block_after(body, m.end() - 1, where)
+                need("prev_d" in names, f"{where}: second-side loop without `let mut prev_d`")
+                need(m.group(1).lstrip("&") != m.group(2).lstrip("&"), f"{where}: loop binds {m.group(1)} twice")
+                loop_body(inner, loop_names([(m.group(1), 2), (m.group(2), 4)]), vals, geo, None, True, "chainSecond")
+                out.append((52, [lst(m.group(3)), lst(m.group(4))]))
+                pos = end
+                continue
+            m = re.compile(r"for\(&(\w+),(&?\w+)\)inmidpoint_vertices\.iter\(\)\.zip\((\w+)\.iter\(\)\)\{").match(body, pos)
+            if m:
+                inner, end = block_after(body, m.end() - 1, where)
+                need(m.group(1) != m.group(2).lstrip("&") and m.group(1) not in names and m.group(1) not in vals and m.group(1) not in geo,
+                     f"{where}: placement loop variable {m.group(1)}")
+                loop_body(inner, loop_names([(m.group(2), 2)]), vals, geo, m.group(1), "prev_d" in names, "placeVertices")
+                out.append((53, [lst(m.group(3))]))
+                pos = end
+                continue
+            m = re.compile("if" + r"(\w+)" + r"!=NULL_DART_ID\{").match(body, pos)
+            if m:
+                inner, end = block_after(body, m.end() - 1, where)
+                need(not body.startswith("else", end), f"{where}: unexpected `else` after a guarded block")
+                sub_st = {"names": dict(names), "vals": vals, "geo": geo, "lists": lists, "nvars": st["nvars"]}
+                sub = parse(inner, sub_st, False)
+                need(sub and all(op in (1, 45, 46, 50, 52) for op, _ in sub), f"{where}: statement kind not allowed in a guarded block")
+                out.append((45, [arg(m.group(1)), len(sub)]))
+                out += sub
+                pos = end
+                continue
+            m = re.compile(r"Ok\(\(\)\)$").match(body, pos)
+            if m:
+                need(top, f"{where}: Ok(()) inside a block")
+                pos = m.end()
+                ended = True
+                continue
+            raise Shape(f"{where}: statement not recognised at {body[pos:pos + 100]!r}")
+        if top:
+            need(ended, f"{where}: the function does not end with Ok(())")
+        return out
+
+    st = {"names": {"edge_id": 0, "NULL_DART_ID": 3}, "vals": {}, "geo": {}, "lists": {"new_darts": 0}, "nvars": 0}
+    ins = parse(body, st, True)
+    used = sorted(a[-1] for op, a in ins if op in (61, 63, 64))
+    need(used == list(range(len(msgs))), f"{where}: string literals {msgs} / used {used}")
+    need(sorted(loops) == ["chainFirst", "chainSecond", "placeVertices"], f"{where}: loops found: {sorted(loops)}")
+    need(sum(1 for op, _ in ins if op in (51, 52, 53)) == 3, f"{where}: a loop shape occurs twice")
+    return ins, loops, msgs
+
+
+def gen_vinsn():
+    ksrc = strip_comments(open(VINS_RS).read())
+    ins, loops, msgs = vinsn_instrs(ksrc)
+
+    def tab(rows):
+        return "[" + ", ".join(f"({op}, [{', '.join(map(str, a))}])" for op, a in rows) + "]"
+
+    out = ["/-\n  GENERATED by /verif/tools/gen_lean.py (generator `vinsn`) from\n  /repo/honeycomb-kernels/src/cell_insertion/vertices.rs — DO NOT EDIT.\n\n"
+           "  `vinsnMsgs`: the `&'static str` payloads of `InvalidDarts` in `insert_vertices_on_edge`, in source order, blanks replaced by `-`.\n"
+           "  `insertVerticesOnEdge`: `insert_vertices_on_edge(cmap, trans, edge_id, new_darts, midpoint_vertices)` as (opcode, operands):\n"
+           "    (60, [c1, c2])          let n_t = midpoint_vertices.len(); let n_d = new_darts.len();\n"
+           "                            if n_d != c1 * n_t { abort(WrongAmountDarts(c2 * n_t, n_d))?; }\n"
+           "    (61, [k])               for d in new_darts { if !is_free_transac(cmap, trans, *d)? { abort(InvalidDarts(msg k))?; } }\n"
+           "    (62, [h])               let L = &new_darts[..n_t] (h = 0) / &new_darts[n_t..] (h = 1)      (binds the next SLICE variable; 0 = new_darts)\n"
+           "    (1, [i, a])             let x = cmap.beta_transac::<i>(trans, a)?                  (binds the next variable)\n"
+           "    (63, [L, k])            if L.iter().any(|d| *d == NULL_DART_ID) { abort(InvalidDarts(msg k))?; }\n"
+           "    (64, [g, L, k])         if g != NULL_DART_ID && L.iter().any(|d| *d == NULL_DART_ID) { abort(InvalidDarts(msg k))?; }\n"
+           "    (65, [e])               if midpoint_vertices.iter().any(|t| (*t >= T::one()) | (*t <= T::zero())) { abort(e)?; }\n"
+           "    (5, [a])                cmap.vertex_id_transac(trans, a)?                          (binds)\n"
+           "    (66, [a, b, e])         if a != NULL_DART_ID { a } else if b != NULL_DART_ID { b } else { abort(e)? }   (binds; the argument of the next (5))\n"
+           "    (44, [a, b, e])         let (Some(v), Some(w)) = (cmap.read_vertex(trans, a)?, cmap.read_vertex(trans, b)?) else { abort(e)? }\n"
+           "                            (binds the next two VALUE variables)\n"
+           "    (45, [a, n])            if a != NULL_DART_ID { the next n instructions }           (variables bound inside do not escape)\n"
+           "    (46, [k, I, a, b])      try_or_coerce!(cmap.link::<I>(trans, a, b), VertexInsertionError) (k = 0) / cmap.unlink::<I>(trans, a) (k = 1, b = 3)\n"
+           "    (50, [a])               let mut prev_d = a;\n"
+           "    (51, [L])               for &new_d in L { chainFirstBody }\n"
+           "    (52, [L, M])            for (d, new_d) in L.iter().rev().zip(M.iter()) { chainSecondBody }\n"
+           "    (53, [L])               for (&t, &new_d) in midpoint_vertices.iter().zip(L.iter()) { placeVerticesBody }\n"
+           "  loop bodies, additionally:\n"
+           "    (48, [a])               prev_d = a;\n"
+           "    (49, [x, r, s, u])      cmap.write_vertex(trans, x, r + seg * t)?   where `let seg = s - u;`, t = the loop's position (r, s, u: value variables)\n"
+           "  operands: 0 = edge_id (`as DartIdType`), 1 = prev_d, 2 = the (first) dart variable of the loop, 3 = NULL_DART_ID, 4 = the second dart variable\n"
+           "  of the loop, 20 + j = the j-th variable bound on the path taken (in a loop body: bound in this iteration).  A loop pattern `&x` is used as\n"
+           "  `x`, a pattern `x` as `*x` (anything else is refused).  e: 0 = VertexBound, 1 = UndefinedEdge.\n"
+           "  Props/C14GenN.lean interprets these tables (calls resolved through the translated dispatch of Gen/VertexInsertion.lean) and proves them\n"
+           "  EQUAL to `chainFirst`, `placeVertices`, `chainSecond`, `insertVerticesOnEdge` of Model/Kernels/VertexInsertion.lean.\n-/\n",
+           "namespace HC.Gen\n",
+           "/-- payloads of `InvalidDarts` in `insert_vertices_on_edge` -/\ndef vinsnMsgs : List String := [" + ", ".join(f'"{s}"' for s in msgs) + "]\n",
+           "/-- body of `for &new_d in darts_fh` -/\ndef chainFirstBody : List (Nat × List Nat) := " + tab(loops["chainFirst"]) + "\n",
+           "/-- body of `for (d, new_d) in darts_fh.iter().rev().zip(darts_sh.iter())` -/\ndef chainSecondBody : List (Nat × List Nat) := " + tab(loops["chainSecond"]) + "\n",
+           "/-- body of `for (&t, &new_d) in midpoint_vertices.iter().zip(darts_fh.iter())` -/\ndef placeVerticesBody : List (Nat × List Nat) := " + tab(loops["placeVertices"]) + "\n",
+           "/-- `insert_vertices_on_edge` -/\ndef insertVerticesOnEdge : List (Nat × List Nat) := " + tab(ins) + "\n",
+           "end HC.Gen\n"]
+    txt = "\n".join(out)
+    if not os.path.exists(VINSN_OUT) or open(VINSN_OUT).read() != txt:
+        open(VINSN_OUT, "w").write(txt)
+    return f"gen_lean: vinsn ok ({len(ins)} instructions, loop bodies {', '.join(f'{k} {len(v)}' for k, v in sorted(loops.items()))})"
+
+
+GENERATORS["vinsn"] = gen_vinsn
 
 
 def run(names):
